@@ -326,6 +326,13 @@ def key_descriptors(keys):
             # a key descriptor that names its key instead of carrying a certificate (schema-valid; contributes no certificate)
             out.append('<md:KeyDescriptor%s><ds:KeyInfo xmlns:ds="%s"><ds:KeyName>named-key</ds:KeyName></ds:KeyInfo></md:KeyDescriptor>' % (_attrs([('use', use)]), DS))
             continue
+        if idx == 'expired':
+            # a certificate whose validity period is over (fixtures/keys/rsa-expired.crt): still the key the metadata publishes for the entity
+            with open(world.crt(0).replace('k0.crt', 'rsa-expired.crt')) as f:
+                body = ''.join(l.strip() for l in f if 'CERTIFICATE' not in l)
+            out.append('<md:KeyDescriptor%s><ds:KeyInfo xmlns:ds="%s"><ds:X509Data><ds:X509Certificate>%s</ds:X509Certificate></ds:X509Data></ds:KeyInfo></md:KeyDescriptor>'
+                       % (_attrs([('use', use)]), DS, body))
+            continue
         if idx == 'damaged':
             # a certificate the tool cannot load (truncated DER): contributes no usable key
             out.append('<md:KeyDescriptor%s><ds:KeyInfo xmlns:ds="%s"><ds:X509Data><ds:X509Certificate>%s</ds:X509Certificate></ds:X509Data></ds:KeyInfo></md:KeyDescriptor>'
